@@ -24,12 +24,12 @@ from sim import core  # noqa: E402
 # runs per tier: fixed counts so that one VERIF_SEED always explores the same set (unless the wall budget cuts it short)
 BUDGET = {
     #         quick (runs, wall s)   thorough (runs, wall s)
-    "C03": ((12000, 45), (400000, 900)),
-    "C04": ((24000, 45), (1500000, 900)),
-    "C11": ((24000, 45), (1200000, 900)),
-    "C12": ((40000, 45), (2000000, 900)),
-    "C13": ((30000, 45), (1500000, 900)),
-    "C16": ((20000, 45), (1000000, 900)),
+    "C03": ((30000, 45), (1200000, 900)),
+    "C04": ((48000, 45), (1600000, 900)),
+    "C11": ((40000, 45), (1500000, 900)),
+    "C12": ((80000, 45), (5000000, 900)),
+    "C13": ((60000, 45), (4000000, 900)),
+    "C16": ((60000, 45), (3000000, 900)),
 }
 
 
